@@ -538,6 +538,9 @@ class Inliner:
                                         return [ast.copy_location(ast.AnnAssign(target=copy.deepcopy(st.target), annotation=st.annotation, value=v, simple=st.simple), st)]
                                     return [ast.copy_location(ast.AugAssign(target=copy.deepcopy(st.target), op=st.op, value=v), st)]
                                 new = _fuse_copies(prologue + self._convert(body, make_exit))
+                            if sum(1 for s_ in new for _n in ast.walk(s_)) > 6000:
+                                self.refused[q] = "expansion too large"
+                                return None
                             self.expanded[q] = self.expanded.get(q, 0) + 1
                             # the expanded code stands at the call site: positions in the host stay monotone (rules compare line numbers)
                             for s_ in new:
@@ -545,8 +548,8 @@ class Inliner:
                                     if hasattr(n_, "lineno") or isinstance(n_, (ast.stmt, ast.expr)):
                                         n_.lineno = getattr(st, "lineno", 1)
                                         n_.end_lineno = getattr(st, "end_lineno", n_.lineno)
-                                        n_.col_offset = getattr(n_, "col_offset", 0) or 0
-                                        n_.end_col_offset = getattr(n_, "end_col_offset", 0) or 0
+                                        n_.col_offset = 0
+                                        n_.end_col_offset = 0
                             # the expanded body may call further new helpers
                             names2 = self._host_names_from(host_names, new)
                             return self.expand_block(new, host_cls, names2, stack | {q})
@@ -879,8 +882,17 @@ def inline_new_helpers(tree: ast.Module, known: set[str]):
     new = {inl._qual(None, n) for n in inl.funcs} | {inl._qual(c, n) for c, n in inl.methods}
     if not (new - known):
         return tree, {}, {}
-    tree = inl.run()
-    return tree, inl.expanded, inl.refused
+    # the pass works on a copy: whatever goes wrong inside it (a construct it was not written for, runaway growth), the module is analysed
+    # as it was written -- a new helper then stays an opaque call, as it was before this pass existed
+    work = copy.deepcopy(tree)
+    inl = Inliner(work, known)
+    try:
+        work = inl.run()
+        if sum(1 for _ in ast.walk(work)) > 40 * max(1, sum(1 for _ in ast.walk(tree))):
+            raise OverflowError("expanded module grew beyond 40 times its size")
+    except (Exception, RecursionError) as exc:  # noqa: BLE001
+        return tree, {}, {"<module>": f"inlining pass abandoned ({type(exc).__name__}: {str(exc)[:80]})"}
+    return work, inl.expanded, inl.refused
 
 
 def remove_unreferenced(tree: ast.Module, expanded: dict[str, int], referenced_elsewhere: set[str]) -> list[str]:
